@@ -6,8 +6,12 @@ import (
 	"crypto/rsa"
 	"crypto/x509"
 	"fmt"
+	"github.com/ucan-wg/go-ucan/token/delegation"
+	"github.com/ucan-wg/go-ucan/token/invocation"
 	"math/big"
+	"math/rand/v2"
 	"strings"
+	"sync"
 
 	"github.com/libp2p/go-libp2p/core/crypto"
 
@@ -29,19 +33,21 @@ func init() {
 		Level:      "fault_enumeration",
 		Exhaustive: true,
 		Rule: "base tokens = {delegation, invocation} x key algorithms x {minimal, all optionals, nested} payload shapes (quick: 2 Ed25519 + 2 other-algorithm tokens; thorough: all 7 pool key kinds x 2 types x 3 shapes). Fault enumeration on each sealed token: EVERY single-bit flip (exhaustive for Ed25519 bases, 1-in-4 sampled for the others in quick, exhaustive in thorough); every offset x {delete, insert 0x00/0xFF/duplicate, substitute}; field-level rewrites with the old signature (each payload field <- another valid value); signature replaced (other key, a crafted RSA key whose did:key shares a several-hundred-character prefix with the issuer's - after genuine tokens of that key went through every decoder -, other token of the same issuer, every truncation incl. empty, zeroed, junk of 21 lengths from 1 to 70000 bytes alone and on a rewritten payload, real signature extended); header replaced by each other algorithm's header, unsigned and re-signed with the issuer key, and by 11 variants of the issuer's own header (other payload-encoding / hash / length segment, dropped, appended or inserted segments) re-signed by the issuer; envelope shape edits (extra SigPayload key, payload under the other tag, both re-signed); the field-level mutants also as DAG-JSON text plus character edits. Every mutant is offered to every decoder of its codec (token.*, delegation.* / invocation.*, bytes and reader). " +
-			"Oracles on every accepted mutant: (O1) no field differs from the original token; (O2) an independent envelope verifier (own did:key -> key extraction, canonical re-encoding, header/key-type match) accepts it; (O3) the returned token's accessors equal the decoded payload. " +
+			"Concurrent phase (plain build and -race build): 16..32 goroutines decode genuine tokens and same-length field rewrites carrying the old signature (small, 4 KiB, 256 KiB, thorough 2 MiB payloads) through 4 decoders at once: no forged token may come out, no panic, no data race in go-ucan code. Oracles on every accepted mutant: (O1) no field differs from the original token; (O2) an independent envelope verifier (own did:key -> key extraction, canonical re-encoding, header/key-type match) accepts it; (O3) the returned token's accessors equal the decoded payload. " +
 			"non-trivial = mutant that still parses as CBOR/JSON; distinct = mutant bytes.",
 		Assumptions: []string{
 			"independent verifier ref.VerifyEnvelope; cryptographic primitives (libp2p/Go crypto) are trusted",
 			"signature malleability (ECDSA s -> n-s) keeps the signed content and is judged by C08, not here",
 		},
-		Shards:      shards(8, 16),
-		Run:         runC06,
-		MinEvals:    floor(200000, 3000000),
-		MinDistinct: floor(8000, 150000),
+		Shards:          shards(8, 16),
+		RaceShards:      shards(1, 4),
+		RaceIsViolation: true,
+		Run:             runC06,
+		MinEvals:        floor(200000, 3000000),
+		MinDistinct:     floor(8000, 150000),
 		RequiredCells: func(string) []string {
 			return []string{"mut/bitflip", "mut/delete", "mut/insert", "mut/substitute", "mut/field-rewrite", "mut/sig-other-key", "mut/sig-transplant", "mut/sig-truncated", "mut/sig-zeroed", "mut/sig-junk", "mut/sig-junk-on-rewritten-payload", "mut/sig-extended", "mut/sig-by-did-prefix-colliding-key", "mut/header-swap", "mut/header-swap-resigned", "mut/own-header-variant-resigned", "mut/extra-key-resigned", "mut/other-tag-resigned", "mut/json-field-rewrite", "mut/json-char-edit",
-				"outcome/rejected", "outcome/accepted-same-content", "base/dlg", "base/inv", "base/ed25519", "base/non-ed25519"}
+				"concurrent", "concurrent/genuine", "concurrent/forged", "concurrent/large", "outcome/rejected", "outcome/accepted-same-content", "base/dlg", "base/inv", "base/ed25519", "base/non-ed25519"}
 		},
 	})
 }
@@ -428,8 +434,15 @@ func c06CollidingIssuer(w *mon.W) {
 }
 
 func runC06(w *mon.W) {
+	if w.Race {
+		c06Concurrent(w)
+		return
+	}
+	if w.Shard == 0 {
+		c06Concurrent(w)
+	}
 	r := w.Rng
-	if w.Shard == w.NShards-1 {
+	if w.Shard == w.NPlain-1 {
 		c06CollidingIssuer(w)
 	}
 	type baseDef struct {
@@ -455,7 +468,7 @@ func runC06(w *mon.W) {
 	}
 	for di, def := range defs {
 		// a base token belongs to one shard, so that the enumeration over it is complete
-		if !w.Mine(di) {
+		if !w.MinePlain(di) {
 			continue
 		}
 		b := c06MakeBase(w, def.typ, def.shape, def.iss)
@@ -676,6 +689,191 @@ func runC06(w *mon.W) {
 					m = append(append(append([]byte{}, m[:off]...), gen.Pick(r, []byte(`0123456789abcdef"{}[]:,`))), m[off:]...)
 				}
 				c06Offer(w, b, "json-char-edit", m, "dagjson", decs)
+			}
+		}
+	}
+}
+
+// c06Concurrent: decoders are called from many goroutines at once in a server. Genuine tokens
+// and forged ones (a payload field rewritten to another value of the SAME length, old
+// signature kept) are decoded concurrently, small ones and ones carrying a large value in
+// front of the forged field (which stretches every window inside the decoder). No forged
+// token may ever come out; in the -race build the race detector additionally watches the
+// decoders' internals (pools, caches, shared buffers).
+func c06Concurrent(w *mon.W) {
+	r := w.Rng
+	type item struct {
+		data    []byte
+		genuine bool
+		base    int
+		what    string
+	}
+	var items []item
+	var bases []*c06Base
+	sizes := []int{0, 4 << 10, 256 << 10}
+	if w.Thorough() {
+		sizes = append(sizes, 2<<20)
+	}
+	algs := []string{"ed25519", "p256", "rsa2048"}
+	for ai, alg := range algs {
+		for ti, typ := range []string{"dlg", "inv"} {
+			for _, size := range sizes {
+				if size > 4<<10 && alg != "ed25519" && ti == 1 {
+					continue
+				}
+				iss := gen.ByAlg(alg)[0]
+				s := gen.RandomSpec(r, typ, gen.SpecOpts{Issuer: iss, Minimal: true, NoBig: true})
+				if size > 0 {
+					s.Meta = ref.Map(ref.E("big", ref.Str(strings.Repeat("x", size))))
+				}
+				tk, err := s.Build()
+				if err != nil {
+					continue
+				}
+				sealed, _, err := tk.ToSealed(iss.Priv)
+				if err != nil {
+					continue
+				}
+				env, err := ref.DecodeDagCbor(sealed)
+				if err != nil {
+					continue
+				}
+				info, err := ref.VerifyEnvelope(env)
+				if err != nil {
+					continue
+				}
+				b := &c06Base{spec: s, tok: tk, sealed: sealed, fields: gen.Fields(tk), env: env, info: info, label: fmt.Sprintf("%s/%s/meta=%dB", typ, alg, size)}
+				bi := len(bases)
+				bases = append(bases, b)
+				items = append(items, item{sealed, true, bi, "genuine"})
+				// same-length rewrites, old signature
+				if cur, ok := info.Payload.Get("nonce"); ok && len(cur.Y) > 0 {
+					nb := append([]byte{}, cur.Y...)
+					nb[len(nb)-1] ^= 0x5a
+					v := ref.Bytes(nb)
+					if fb, err := ref.EncodeDagCbor(setField(env, "nonce", &v)); err == nil && len(fb) == len(sealed) {
+						items = append(items, item{fb, false, bi, "nonce"})
+					}
+				}
+				for _, k := range []string{"aud", "sub"} {
+					if cur, ok := info.Payload.Get(k); ok && cur.K == ref.KString {
+						for try := 0; try < 20; try++ {
+							o := gen.ByAlg(alg)[r.IntN(len(gen.ByAlg(alg)))].DID.String()
+							if o != cur.S && len(o) == len(cur.S) {
+								v := ref.Str(o)
+								if fb, err := ref.EncodeDagCbor(setField(env, k, &v)); err == nil && len(fb) == len(sealed) {
+									items = append(items, item{fb, false, bi, k})
+								}
+								break
+							}
+						}
+					}
+				}
+				_ = ai
+			}
+		}
+	}
+	if len(items) < 10 {
+		w.Inconclusive("C06 concurrent phase: too few items")
+		return
+	}
+	type dec struct {
+		name string
+		f    func([]byte) (token.Token, error)
+	}
+	decs := []dec{
+		{"token.FromSealed", func(b []byte) (token.Token, error) { t, _, err := token.FromSealed(b); return t, err }},
+		{"token.FromSealedReader", func(b []byte) (token.Token, error) {
+			t, _, err := token.FromSealedReader(bytes.NewReader(b))
+			return t, err
+		}},
+		{"token.FromDagCbor", func(b []byte) (token.Token, error) { return token.FromDagCbor(b) }},
+		{"typed.FromSealed", func(b []byte) (token.Token, error) {
+			if t, _, err := delegation.FromSealed(b); err == nil {
+				return t, nil
+			}
+			t, _, err := invocation.FromSealed(b)
+			if err != nil {
+				return nil, err
+			}
+			return t, nil
+		}},
+	}
+	G := w.Pick(16, 32)
+	rounds := w.Pick(3, 12)
+	perG := w.Pick(120, 300)
+	if w.Race {
+		perG /= 3
+	}
+	type obs struct {
+		item, dec int
+		accepted  bool
+		diff      string
+		panicked  string
+	}
+	for round := 0; round < rounds; round++ {
+		res := make([][]obs, G)
+		var wg sync.WaitGroup
+		start := make(chan struct{})
+		for g := 0; g < G; g++ {
+			g := g
+			lr := rand.New(rand.NewPCG(uint64(w.Seed)+uint64(round)*1000+uint64(g), uint64(w.Shard)))
+			wg.Add(1)
+			go func() {
+				defer wg.Done()
+				<-start
+				for i := 0; i < perG; i++ {
+					ii := lr.IntN(len(items))
+					// goroutines pair up on one base: even ones prefer genuine, odd ones forged bytes
+					if i%2 == 0 {
+						want := g%2 == 0
+						for try := 0; try < 4 && items[ii].genuine != want; try++ {
+							ii = lr.IntN(len(items))
+						}
+					}
+					di := lr.IntN(len(decs))
+					o := obs{item: ii, dec: di}
+					var t token.Token
+					var err error
+					if pi := mon.Guard(func() { t, err = decs[di].f(items[ii].data) }); pi != nil {
+						o.panicked = pi.Value + " @ " + pi.Frame
+					} else if err == nil && t != nil {
+						o.accepted = true
+						o.diff = c06Diff(bases[items[ii].base].fields, gen.Fields(t))
+					}
+					res[g] = append(res[g], o)
+				}
+			}()
+		}
+		close(start)
+		wg.Wait()
+		for g := range res {
+			for _, o := range res[g] {
+				it := items[o.item]
+				w.Eval(1)
+				w.Cover("concurrent")
+				if it.genuine {
+					w.Cover("concurrent/genuine")
+				} else {
+					w.Cover("concurrent/forged")
+				}
+				if len(it.data) > 100<<10 {
+					w.Cover("concurrent/large")
+				}
+				w.Distinct("concurrent", o.item, o.dec, round, g)
+				b := bases[it.base]
+				switch {
+				case o.panicked != "":
+					w.Violate("concurrent/panic/"+decs[o.dec].name, fmt.Sprintf("%s panicked while %d goroutines were decoding: %s", decs[o.dec].name, G, o.panicked), map[string]any{"base": b.label, "goroutines": G})
+				case !it.genuine && o.accepted:
+					w.Violate(fmt.Sprintf("concurrent/forged-accepted/%s/%s", it.what, decs[o.dec].name),
+						fmt.Sprintf("while %d goroutines decode genuine and forged tokens concurrently, %s accepts a token whose %s was rewritten (old signature kept); field differing from the signed one: %q", G, decs[o.dec].name, it.what, o.diff),
+						map[string]any{"base": b.label, "rewritten_field": it.what, "goroutines": G, "race_build": w.Race, "genuine_hex": mon.Hex(capBytes(b.sealed, 2048)), "forged_hex": mon.Hex(capBytes(it.data, 2048))})
+				case it.genuine && o.accepted && o.diff != "":
+					w.Violate("concurrent/genuine-decoded-differently/"+o.diff, fmt.Sprintf("%s returns a genuine token whose %q differs from what was sealed, under %d concurrent decoders", decs[o.dec].name, o.diff, G), map[string]any{"base": b.label, "goroutines": G})
+				case it.genuine && !o.accepted:
+					w.Count("concurrent/genuine-rejected(judged by C07)", 1)
+				}
 			}
 		}
 	}
